@@ -29,7 +29,7 @@ PROPS = {
                    gates={'c01:ep_legal_by_pinned_capturer': 5, 'c01:ep_illegal_rank_exposure': 5, 'c01:double_check': 20,
                           'c01:castle_path_attacked': 20, 'c01:ep_legal': 50, 'c01:castle_legal': 50},
                    min_nontrivial=10000),
-        thorough=dict(cases=6000, shards=16, max_size=100, scale=6,
+        thorough=dict(cases=1500, shards=16, max_size=100, scale=6, opts=['nodes=6000'],
                       gates={'c01:ep_legal_by_pinned_capturer': 50, 'c01:ep_illegal_rank_exposure': 50, 'c01:double_check': 200,
                              'c01:castle_path_attacked': 200},
                       min_nontrivial=100000),
